@@ -5,6 +5,7 @@
 -/
 import N2V.Model.Run
 import N2V.TraceSpec
+import N2V.Lemmas.SchedFrame
 namespace N2V.Mon
 open N2V N2V.Sched
 
@@ -139,6 +140,8 @@ structure Verdicts where
   cycleSound : Bool          -- a `dependency cycle` diagnostic only if the requested closure has one
   cycleComplete : Bool       -- an ordering cycle in the requested closure is never built through
   traceSpec : Bool           -- every event satisfies `okEv` (TraceSpec.lean) w.r.t. its history
+  budgetSpec : Bool          -- every start respected the -k budget and preceded any interruption (`budgetTrace`)
+  keepsGoing : Bool          -- failure within budget: every wanted step not downstream of a failure is Done
 
 /-- `result`: the observed outcome token (`ok n`, `fail`, `err ..`, `panic ..`). -/
 def verdicts (g : Graph) (a : Run.Args) (result : List String) (tr : List Ev) : Verdicts :=
@@ -187,7 +190,13 @@ def verdicts (g : Graph) (a : Run.Args) (result : List String) (tr : List Ev) : 
             ((if sc.loads ≤ 1 then a.manifest :: fs else fs).filterMap g.producer) []
         | none => []
       !isOk || !hasOrderingCycle g reach
-    traceSpec := okTrace g a.par (poolShape (initPools a.pools)) tr.reverse }
+    traceSpec := okTrace g a.par (poolShape (initPools a.pools)) tr.reverse
+    budgetSpec := a.failuresLeft == some 0 || budgetTrace a.failuresLeft tr.reverse
+    keepsGoing :=
+      let exhausted := match a.failuresLeft with | some k => decide (sc.failures ≥ k) | none => false
+      isOk || isErr || isPanic || sc.interrupted || exhausted ||
+      touched.all (fun b => sc.st b == .done || sc.st b == .failed ||
+        (ancestors g b).any (fun p => sc.st p == .failed)) }
 
 def Verdicts.toList (v : Verdicts) : List (String × Bool) :=
   [("startsAfterDeps", v.startsAfterDeps), ("startsOnce", v.startsOnce), ("withinLimits", v.withinLimits),
@@ -195,6 +204,7 @@ def Verdicts.toList (v : Verdicts) : List (String × Bool) :=
    ("countsOk", v.countsOk), ("traceConsistent", v.traceConsistent), ("onlyWanted", v.onlyWanted),
    ("closureComplete", v.closureComplete), ("exitOk", v.exitOk), ("summaryOk", v.summaryOk),
    ("decided", v.decided), ("stopsOnInterrupt", v.stopsOnInterrupt),
-   ("cycleSound", v.cycleSound), ("cycleComplete", v.cycleComplete), ("traceSpec", v.traceSpec)]
+   ("cycleSound", v.cycleSound), ("cycleComplete", v.cycleComplete), ("traceSpec", v.traceSpec),
+   ("budgetSpec", v.budgetSpec), ("keepsGoing", v.keepsGoing)]
 
 end N2V.Mon
